@@ -18,3 +18,4 @@ def run(ck):
     sampling.r8_rotation_tiles(ck, P)
     sampling.r9_signed_projective_division(ck, P)
     sampling.r10_transform_flags(ck, P)
+    sampling.r11_rounding_epsilon(ck, P)
